@@ -175,8 +175,40 @@ pub fn repeated_case(ch: &mut Chooser) -> Report {
     rep
 }
 
+/// evaluate the text as a program file (src/io.rs re-assembles it line by line)
+pub fn eval_whole_file(text: &str) -> Outcome {
+    let t = text.to_string();
+    sut::in_thread(move || {
+        let dir = std::env::temp_dir().join(format!("rv-c15-{}-{:?}", std::process::id(), std::thread::current().id()));
+        let _ = std::fs::create_dir_all(&dir);
+        let file = dir.join("program.scm");
+        std::fs::write(&file, &t).unwrap();
+        let mut s = Session::stdlib().unwrap().with_host().with_budget(sut::Budget::GENEROUS);
+        let o = s.eval_file(&file);
+        let _ = std::fs::remove_dir_all(&dir);
+        o
+    })
+}
+
 fn judge_program(ch: &mut Chooser, forms: Vec<Form>, fault_index: usize, kind: &'static str, context: &'static str, derived: bool) -> Report {
-    let laid = lay_out_program(ch, &forms, fault_index);
+    let mut laid = lay_out_program(ch, &forms, fault_index);
+    // a third of the programs are read from a file, half of those behind a header of comment-only lines
+    let from_file = ch.chance(1, 3);
+    let header = if from_file && ch.chance(1, 2) { 1 + ch.below(3) as u32 } else { 0 };
+    if header > 0 {
+        let nl = if laid.text.contains("\r\n") { "\r\n" } else { "\n" };
+        let head: String = (0..header).map(|k| format!("; header line {} ( of the file{}", k, nl)).collect();
+        laid.text = format!("{}{}", head, laid.text);
+        let shift = |e: &mut Extent| {
+            e.start[0] += header;
+            e.end[0] += header;
+        };
+        laid.forms.iter_mut().for_each(shift);
+        if let Some(m) = laid.marked.as_mut() {
+            shift(m);
+        }
+        laid.end[0] += header;
+    }
     let mut rep = Report::new(laid.text.clone());
     rep.label(format!("kind:{}", kind));
     rep.label(format!("context:{}", context));
@@ -197,7 +229,10 @@ fn judge_program(ch: &mut Chooser, forms: Vec<Form>, fault_index: usize, kind: &
         rep.skipped = Some("deferred-fault-with-a-location-of-its-own".into());
         return rep;
     }
-    let o = eval_whole(&laid.text);
+    if from_file {
+        rep.label(if header > 0 { "read-from-file-with-comment-header" } else { "read-from-file" });
+    }
+    let o = if from_file { eval_whole_file(&laid.text) } else { eval_whole(&laid.text) };
     rep.note = format!("{} ; failing form extent {:?}-{:?}, offending token {:?}", o.show(), fe.start, fe.end, laid.marked.as_ref().map(|m| (m.start, m.end)));
     let uses_macro = form_uses(&forms[fault_index], MACROS);
     let uses_lib = form_uses(&forms[fault_index], LIBPROCS);
@@ -339,7 +374,8 @@ pub fn run(ctx: &Ctx) {
          the cursor extent of every top-level form and of the offending token being recorded by the renderer; evaluated \
          whole. Oracle: the error carries a location, inside the failing form's extent, and for unbound-variable / \
          non-procedure faults inside the offending token's extent; plus stray ')' / unterminated list: a located syntax \
-         error points at or before the offending token. Half of the cases avoid derived forms and library contexts by \
+         error points at or before the offending token. A third of the programs are read from a file (half of those behind a header of comment-only lines). \
+         Half of the cases avoid derived forms and library contexts by \
          construction. Context `deferred` (the fault sits in a procedure defined by an earlier form, the failing form is the \
          later call) is judged for the fault kinds whose error has no location of its own; a derived form written twice \
          (first occurrence succeeds, the state changes, the second fails) must be located in the second occurrence. Non-trivial = the failing form is not on line 1 and spans >= 2 lines.",
